@@ -201,7 +201,7 @@ func genDirFlow5(g *vlib.G) {
 }
 
 func genDirIntervals5(g *vlib.G) {
-	forDirected5(g, 32, func(key string, s gspec) {
+	forDirected5(g, 64, func(key string, s gspec) {
 		g.Case(key, func(t *vlib.T) { dirFlowCase(t, "dir-intervals5", key, s, 0, true) })
 	})
 }
